@@ -182,7 +182,26 @@ def r3(facts):
 
 def r4(facts):
     out = []
-    fn = facts.fn('OPN2::noteOn')
+    top = facts.fn('OPN2::noteOn')
+    out += _r4_in(facts, top, top, {})
+    # the frequency search may live in a local helper that receives the scaled frequency: its parameter is bounded at the entry
+    # when the argument is bounded at every call site
+    for b, j, st in top.cfg.stmts():
+        for x in calls_in(st['s']):
+            for cf in facts.fns.get(callee_name(x), [])[:1]:
+                if not is_local_helper(top, cf):
+                    continue
+                entry = {}
+                for i_, p_ in enumerate(cf.params):
+                    a = strip((x.get('a') or [None] * (i_ + 1))[i_]) if i_ < len(x.get('a') or []) else None
+                    if (p_.get('t') or {}).get('f') and a is not None and a.get('k') == 'DeclRefExpr':
+                        entry[p_['id']] = bounded_at(top, b, a['id'], at_stmt=j)
+                out += _r4_in(facts, cf, top, entry)
+    return out
+
+
+def _r4_in(facts, fn, top, entry_bounded):
+    out = []
     cfg = fn.cfg
     # loops of the structured body whose condition has a conjunct `v >= C` / `v > C` on a floating variable
     loops_t = []
@@ -240,7 +259,7 @@ def r4(facts):
                     if is_incdec(x) and x['op'] == '++' and strip(x['e']).get('id') == nid:
                         counter = True
         # (b) finite upper bound on v at the loop entry (forward must-analysis)
-        bounded = bounded_at(fn, bid, v['id'])
+        bounded = bounded_at(fn, bid, v['id'], entry_fact=bool(entry_bounded.get(v['id'])))
         ok = counter or bounded
         out.append(Obl('C02.R4', fn.name, 'while(%s)' % show(whole['cond']), cfg.blocks[bid].get('cloc', fn.loc), 'discharged' if ok else 'finding',
                        why=('trip count bounded by an integer counter in the loop condition' if counter else 'value has a finite upper bound on every path into the loop') if ok else
@@ -248,14 +267,14 @@ def r4(facts):
     return out
 
 
-def bounded_at(fn, header, vid):
+def bounded_at(fn, header, vid, entry_fact=False, at_stmt=None):
     """must-analysis: on every path from the entry to `header` the floating variable has a finite upper bound"""
     cfg = fn.cfg
     IN = {}
     OUT = {}
     order = sorted(cfg.blocks, reverse=True)
-    def transfer(bid, fact):
-        for st in cfg.blocks[bid]['stmts']:
+    def transfer(bid, fact, upto=None):
+        for st in cfg.blocks[bid]['stmts'][:upto]:
             s = st['s']
             if s.get('k') == 'DeclStmt':
                 for d in s['decls']:
@@ -286,7 +305,7 @@ def bounded_at(fn, header, vid):
     for b in cfg.blocks:
         IN[b] = True
         OUT[b] = True
-    IN[cfg.entry] = False
+    IN[cfg.entry] = entry_fact
     it = 0
     while changed and it < 50:
         changed = False
@@ -320,6 +339,8 @@ def bounded_at(fn, header, vid):
             if o != OUT[b]:
                 OUT[b] = o
                 changed = True
+    if at_stmt is not None:
+        return bool(transfer(header, IN.get(header), upto=at_stmt))      # the fact in front of statement at_stmt of the block
     return bool(IN.get(header))
 
 
